@@ -8,7 +8,7 @@
     in each attempt); [run] / [exec] quantify over all schedules of the
     subscriber, the closer and the canceller. *)
 From Gnmi Require Import Base.Prelude Client.ClientModel Client.ClientCheck
-     Client.ClientProofs Client.ClientProofs2 Client.ClientProofs3 Client.ClientProofs4.
+     Client.ClientProofs Client.ClientProofs2 Client.ClientProofs3 Client.ClientProofs4 Client.ClientProofs5.
 
 (** The acceptance check is sound: an accepted recording is a trace of the model. *)
 Theorem C18_accepts_sound : forall rc l tr ss,
@@ -80,3 +80,23 @@ Theorem C18_exactly_one_cancel : forall sc s,
   (ncancel s = 1 -> r_closed s = true /\ r_hascancel s = true).
 Proof. exact exactly_one_cancel_lemma. Qed.
 Print Assumptions C18_exactly_one_cancel.
+
+(** What K_P's tag-3 monitor means: at every moment of a recording it accepts,
+    #disconnect <= #attempts <= #disconnect + 1 (one disconnect per ended
+    attempt), #attempts <= #reset + 1 (a reset before every retry) and
+    #reset <= #disconnect. *)
+Theorem C18_k_disc_sound : forall tr,
+  k_disc true tr = None ->
+  forall pre suf, tr = pre ++ suf ->
+    cnt isD pre <= cnt isF pre <= S (cnt isD pre) /\
+    cnt isF pre <= S (cnt isR pre) /\ cnt isR pre <= cnt isD pre.
+Proof. exact k_disc_sound. Qed.
+Print Assumptions C18_k_disc_sound.
+
+(** What K_P's tag-5 monitor means through a ReconnectClient: no handler
+    invocation after Close returned. *)
+Theorem C18_k_after_sound : forall tr,
+  k_after true tr = None ->
+  forall pre e suf ok, tr = pre ++ e :: suf -> In (ECloseRet ok) pre -> is_handler e = false.
+Proof. exact k_after_sound_rc. Qed.
+Print Assumptions C18_k_after_sound.
